@@ -622,3 +622,90 @@ fn candidate_words(w: &str) -> Vec<String> {
     }
     out
 }
+
+// ------------------------------------------------------------------------------------------------
+// generator "threads": real threads sharing precompiled trees and one context (C15)
+// ------------------------------------------------------------------------------------------------
+pub fn gen_threads(rec: &mut Recorder, rng: &mut StdRng, iters: usize, nthreads: usize) {
+    use crate::entry::*;
+    use std::collections::BTreeMap;
+    use std::sync::Arc;
+    let log: Log = Default::default();
+    let behaviours: Vec<(String, &str, V)> = vec![("f".into(), "id", Value::Empty), ("g".into(), "const", Value::Int(7)), ("h".into(), "fail", Value::Empty)];
+    let vars: Vec<(String, V)> = vec![
+        ("x".into(), Value::Int(rng.gen_range(0..5))),
+        ("y".into(), Value::String("ab".into())),
+        ("zed".into(), Value::Tuple(vec![Value::Int(1), Value::Int(2)])),
+    ];
+    let mut c = HashMapContext::<DefaultNumericTypes>::new();
+    for (n, b, v) in &behaviours {
+        c.set_function(n.clone(), make_function(n, b, Some(v.clone()), &log)).unwrap();
+    }
+    for (n, v) in &vars {
+        c.set_value(n.clone(), v.clone()).unwrap();
+    }
+    rec.emit(json!({"ev": "ctx", "slot": 0, "ctx": ctx_json(&vars, &behaviours, false)}));
+    let mut sources: Vec<String> = ["x + 1", "f(x) * 2", "g()", "y + \"c\"", "len(y)", "max(x, 3)", "zed", "x = 2", "undefined", "1 / 0",
+                                    "if(x > 0, \"p\", \"n\")", "(x, y); x", "str::from(zed)", "contains(zed, 2)", "x < 2 && true", "h(1)",
+                                    "typeof(zed), typeof(y)", "x += 1; x", "min(x, 2, 3) - 1"]
+        .iter()
+        .map(|s| s.to_string())
+        .collect();
+    for _ in 0..12 {
+        let depth = rng.gen_range(1..4);
+        let ast = gen_ast(rng, depth, true);
+        let mut toks = Vec::new();
+        render_inline(&ast, rng, &mut toks);
+        sources.push(toks.join(" "));
+    }
+    let trees: Vec<Option<Tree>> = sources.iter().map(|s| build_operator_tree::<DefaultNumericTypes>(s).ok()).collect();
+    let shared = Arc::new((c, sources.clone(), trees));
+    let seeds: Vec<u64> = (0..nthreads).map(|_| rng.gen()).collect();
+    let mut handles = Vec::new();
+    for (t, sd) in seeds.into_iter().enumerate() {
+        let shared = shared.clone();
+        handles.push(std::thread::Builder::new().stack_size(64 << 20).spawn(move || {
+            use rand::SeedableRng;
+            let mut rng = StdRng::seed_from_u64(sd);
+            let (ctx, sources, trees) = &*shared;
+            let mut seen: BTreeMap<(usize, &'static str, bool, String), (J, u64)> = BTreeMap::new();
+            for _ in 0..iters {
+                let i = rng.gen_range(0..sources.len());
+                let kind = KINDS[rng.gen_range(0..KINDS.len())];
+                let tree_level = rng.gen_bool(0.5) && trees[i].is_some();
+                let r = guard(|| {
+                    if tree_level {
+                        call_tree_imm(kind, trees[i].as_ref().unwrap(), ctx)
+                    } else {
+                        call_string_imm(kind, &sources[i], ctx)
+                    }
+                });
+                let rj = res_json(&r);
+                let e = seen.entry((i, kind.name(), tree_level, rj.to_string())).or_insert((rj, 0));
+                e.1 += 1;
+            }
+            (t, seen)
+        }).expect("spawn"));
+    }
+    let mut merged: BTreeMap<(usize, &'static str, bool, String), (J, u64)> = BTreeMap::new();
+    for h in handles {
+        match h.join() {
+            Ok((_, seen)) => {
+                for (k, (rj, n)) in seen {
+                    let e = merged.entry(k).or_insert((rj, 0));
+                    e.1 += n;
+                }
+            },
+            Err(_) => rec.emit(json!({"ev": "eval", "slot": 0, "src": cps("<thread>"), "level": "string", "ek": "value", "mode": "imm",
+                                      "res": {"p": "panic", "v": enc_value(&Value::Empty), "e": no_err()}, "post": {"nb": false, "vars": [], "funcs": []},
+                                      "log": [], "nolog": true})),
+        }
+    }
+    let (ctx, sources, _) = &*shared;
+    let probe: Vec<String> = vec!["f".into(), "g".into(), "h".into(), "never_defined".into()];
+    let post = project_hashmap(ctx, &probe, &log).unwrap_or_else(|e| json!({"error": e}));
+    for ((i, kind, tree_level, _), (rj, count)) in merged {
+        rec.emit(json!({"ev": "eval", "slot": 0, "src": cps(&sources[i]), "level": if tree_level { "tree" } else { "string" }, "ek": kind,
+                        "mode": "imm", "res": rj, "post": post, "log": [], "nolog": true, "count": count, "threads": nthreads}));
+    }
+}
